@@ -1,7 +1,337 @@
-import Netpoll.Adapter
+import Netpoll.AdapterLemmas
+/-!
+# C16 – the stream adapters of nocopy_readwriter.go preserve the byte stream
+
+Model: `Netpoll/Adapter.lean` (zcReader / zcWriter / ioReader / ioWriter over the C01 spec queue `Q`, scripted
+io.Reader `Src` and io.Writer `Sink`).  Vocabulary (`Netpoll/AdapterLemmas.lean`):
+
+* `seg f i n`            – the `n` stream bytes `f i, …, f (i+n-1)`;
+* `RGood r`              – reader invariant: `delivered ++ q.flushedBytes = pulled`, every queue entry flushed,
+                           history flags clean, every buffer call so far inside the C01 `Contract`;
+* `Delivers r r' bs`     – `bs = seg stream |r.delivered| |bs|` and `r'.delivered = r.delivered ++ bs`;
+* `errOf (k, e)`         – the error a source call scripted `(k, e)` must surface (EOF ↦ ErrEOF, other ↦ itself,
+                           negative count with nil error ↦ "negative count");
+* `gotOf l (k, e)`       – the number of bytes that call puts into a buffer of length `l`;
+* `WGood w`, `wspec`     – writer invariant; the Writer interface as a function of the calls alone;
+* `WInContract w ops`    – every call of the sequence respects the caller-side clauses of the C01 `Contract` when it
+                           is made: `MallocAck n` has `n ≤ MallocLen()`, `Malloc n` is filled with exactly `n` bytes
+                           (`d.length = n.toNat`), `WriteBinary p` has `len(p) ≤ cap(p)`;
+* `QGood`, `IOState`     – the buffer shared by an ioWriter and an ioReader, with ghost history.
+
+All theorems hold for every byte type, every stream function, every script, every `block4k` and every operation
+sequence (induction over the op list and over the `waitRead` fuel).
+-/
 namespace Netpoll.Props.C16
 open Netpoll.Buf Netpoll.Adapter
-/-- placeholder until the stream invariants are proved (see checks/c16.py): an exhausted source reports EOF. -/
-theorem src_exhausted_eof {α : Type} (s : Src α) (l : Nat) (h : s.script = []) : (s.read l).1 = (0, .eof, []) := by
-  simp [Src.read, h]
+
+variable {α : Type}
+
+/-! ## 1. reader: the stream invariant -/
+
+theorem C16_reader_init (stream : Nat → α) (script : List (Int × IOErr)) :
+    RGood ({ src := { stream := stream, script := script } } : ZCReader α) :=
+  RGood.init stream script
+
+variable [DecidableEq α]
+
+/-- one reader call keeps the invariant, never changes the stream function, never moves the source backwards,
+and only ever appends to what was delivered -/
+theorem C16_reader_step [Inhabited α] {r : ZCReader α} (hr : RGood r) (block4k : Nat) (op : ROp α) :
+    RGood (r.step block4k op).1 ∧ (r.step block4k op).1.src.stream = r.src.stream ∧
+    r.src.pos ≤ (r.step block4k op).1.src.pos ∧ r.delivered <+: (r.step block4k op).1.delivered :=
+  ⟨(step_ok hr block4k op).1, (step_ok hr block4k op).2.1, (step_ok hr block4k op).2.2.1,
+   step_delivered_prefix hr block4k op⟩
+
+/-- For every source (any stream, any script of short / zero-byte / negative / data-with-error reads) and every
+sequence of Reader calls, at every point: everything pulled from the source so far is exactly what was handed out
+followed by what is still buffered – in order, nothing twice, nothing lost; nothing is left malloc'ed-but-unflushed
+(every entry is readable); and every LinkBuffer call made so far was inside the C01 contract. -/
+theorem C16_reader_stream [Inhabited α] (block4k : Nat) (stream : Nat → α) (script : List (Int × IOErr))
+    (ops : List (ROp α)) :
+    let r := ({ src := { stream := stream, script := script } } : ZCReader α).run block4k ops
+    r.delivered ++ r.q.flushedBytes = (List.range r.src.pos).map stream ∧
+    r.q.mallocLen = 0 ∧ (∀ x ∈ r.q.items, x.2 = true) ∧ r.src.stream = stream ∧ r.inC = true := by
+  intro r
+  obtain ⟨g, hs, _⟩ := run_ok block4k ops _ (RGood.init stream script)
+  have hs' : r.src.stream = stream := hs
+  refine ⟨?_, Q.mallocLen_of_allF g.allF, g.allF, hs', g.inC⟩
+  have := g.stream
+  rw [Src.pulled, hs'] at this
+  exact this
+
+/-- … and along any run the source position only grows and the delivered stream only grows by appending. -/
+theorem C16_reader_monotone [Inhabited α] (block4k : Nat) (stream : Nat → α) (script : List (Int × IOErr))
+    (ops₁ ops₂ : List (ROp α)) :
+    let r₀ := ({ src := { stream := stream, script := script } } : ZCReader α)
+    (r₀.run block4k ops₁).src.pos ≤ (r₀.run block4k (ops₁ ++ ops₂)).src.pos ∧
+    (r₀.run block4k ops₁).delivered <+: (r₀.run block4k (ops₁ ++ ops₂)).delivered := by
+  intro r₀
+  obtain ⟨g, _, _⟩ := run_ok block4k ops₁ _ (RGood.init stream script)
+  rw [run_append]
+  exact ⟨(run_ok block4k ops₂ _ g).2.2, run_delivered_prefix block4k ops₂ _ g⟩
+
+/-- The junk `default` bytes with which the model pads the malloc'ed block never matter: two runs that differ
+only in the padding value are equal. -/
+theorem C16_reader_padding_irrelevant (i₁ i₂ : Inhabited α) (block4k : Nat) (stream : Nat → α)
+    (script : List (Int × IOErr)) (ops : List (ROp α)) :
+    @ZCReader.run α _ i₁ block4k { src := { stream := stream, script := script } } ops =
+    @ZCReader.run α _ i₂ block4k { src := { stream := stream, script := script } } ops :=
+  run_pad_irrelevant i₁ i₂ block4k ops _ (RGood.init stream script)
+
+/-- non-vacuity: three source calls (3 bytes; 0 bytes; 2 bytes together with io.EOF), `Next(4)` then `Next(2)`.
+(`Next(4)` is the call during which the EOF arrives, so it fails with ErrEOF although 5 bytes are then buffered – as
+in Go, where `fill` returns the error straight after `Flush`; `Next(2)` then succeeds without touching the source.) -/
+example :
+    let r₀ := ({ src := { stream := fun i => 10 + i, script := [(3, .none), (0, .none), (2, .eof)] } } : ZCReader Nat)
+    let r := r₀.run 4 [.next 4, .next 2]
+    (r₀.step 4 (.next 4)).2 = .fail .eof ∧
+    r.delivered = [10, 11] ∧ r.q.flushedBytes = [12, 13, 14] ∧ r.src.pos = 5 ∧ r.src.script = [] := by
+  decide
+
+/-! ## 2. reader: what a successful call returns -/
+
+omit [DecidableEq α] in
+theorem C16_delivers_def {r r' : ZCReader α} {bs : List α} :
+    Delivers r r' bs ↔ (bs = seg r.src.stream r.delivered.length bs.length ∧ r'.delivered = r.delivered ++ bs) :=
+  Iff.rfl
+
+/-- In a state satisfying the invariant: a successful `Next(n)` / `ReadBinary(n)` / `ReadByte` / `Until(c)` returns
+exactly the next bytes of the source stream after what was delivered before (`n`, 1, up to and including the first
+`c`), and they count as delivered; a successful `Skip(n)` removes exactly the next `n`; a successful `Peek(n)` returns
+the next `n` without consuming (they are still the front of the buffer); a failing call delivers nothing. -/
+theorem C16_reader_results [Inhabited α] {r : ZCReader α} (hr : RGood r) (b : Nat) :
+    (∀ n res, (r.step b (.next n)).2 = .ok res →
+      ∃ bs, res = .bytes bs ∧ bs.length = n.toNat ∧ Delivers r (r.step b (.next n)).1 bs) ∧
+    (∀ n res, (r.step b (.readBinary n)).2 = .ok res →
+      ∃ bs, res = .bytes bs ∧ bs.length = n.toNat ∧ Delivers r (r.step b (.readBinary n)).1 bs) ∧
+    (∀ res, (r.step b .readByte).2 = .ok res →
+      ∃ bs, res = .bytes bs ∧ bs.length = 1 ∧ Delivers r (r.step b .readByte).1 bs) ∧
+    (∀ c res, (r.step b (.until c)).2 = .ok res →
+      ∃ bs, res = .bytes bs ∧ bs.idxOf? c = some (bs.length - 1) ∧ Delivers r (r.step b (.until c)).1 bs) ∧
+    (∀ n res, (r.step b (.skip n)).2 = .ok res →
+      res = .unit ∧ ∃ bs, bs.length = n.toNat ∧ Delivers r (r.step b (.skip n)).1 bs) ∧
+    (∀ n, (r.step b (.peek n)).1.delivered = r.delivered ∧ ∀ res, (r.step b (.peek n)).2 = .ok res →
+      ∃ bs, res = .bytes bs ∧ bs.length = n.toNat ∧ bs = seg r.src.stream r.delivered.length bs.length ∧
+        bs = (r.step b (.peek n)).1.q.flushedBytes.take bs.length) ∧
+    r.step b .release = (r, .ok .unit) ∧ r.step b .len = (r, .ok (.num r.q.len)) ∧
+    (∀ op e, (r.step b op).2 = .fail e → (r.step b op).1.delivered = r.delivered) :=
+  ⟨(step_next hr b · |>.2), (step_readBinary hr b · |>.2), (step_readByte hr b).2, (step_until hr b · |>.2),
+   (step_skip hr b · |>.2), (step_peek hr b · |>.2), step_release hr b, step_len hr b,
+   fun op => (step_ok hr b op).2.2.2⟩
+
+/-- non-vacuity: reads of 2, 0, 3 bytes then 2 bytes with io.EOF. `Next(4)` returns stream bytes 0..3, `Peek(1)` shows
+byte 4 without consuming, `ReadByte` takes it, `Until` takes up to the delimiter, `Skip(1)` fails with ErrEOF. -/
+example :
+    let r₀ := ({ src := { stream := fun i => 10 + i, script := [(2, .none), (0, .none), (3, .none), (2, .eof)] } } : ZCReader Nat)
+    let r₁ := (r₀.step 4 (.next 4)).1
+    let r₂ := (r₁.step 4 (.peek 1)).1
+    let r₃ := (r₂.step 4 .readByte).1
+    (r₀.step 4 (.next 4)).2 = .ok (.bytes [10, 11, 12, 13]) ∧ (r₁.step 4 (.peek 1)).2 = .ok (.bytes [14]) ∧
+    (r₂.step 4 .readByte).2 = .ok (.bytes [14]) ∧ r₃.delivered = [10, 11, 12, 13, 14] ∧
+    (r₃.step 4 (.skip 1)).2 = .fail .eof ∧ ((r₃.step 4 (.skip 1)).1.step 4 (.until 16)).2 = .ok (.bytes [15, 16]) := by
+  decide
+
+/-! ## 3. reader: the source's error is surfaced, the bytes that came with it stay readable -/
+
+/-- the error table: io.EOF ↦ ErrEOF, any other error ↦ itself, negative count with nil error ↦ "negative count",
+otherwise no error (whatever the count) -/
+theorem C16_error_mapping (k : Int) :
+    errOf (k, .eof) = some .eof ∧ errOf (k, .other) = some .src ∧
+    (k < 0 → errOf (k, .none) = some .negative) ∧ (0 ≤ k → errOf (k, .none) = none) := by
+  refine ⟨rfl, rfl, ?_, ?_⟩ <;> intro h <;> simp [errOf] <;> omega
+
+/-- `waitRead(n)` in a state satisfying the invariant. Either `n` bytes are already buffered and the source is not
+called at all; or it makes the source calls `pre ++ [last]` – the next entries of the script, an exhausted script
+answering `(0, io.EOF)` – where every call in `pre` is error-free and the call returns exactly the error of `last`
+(none only if `n` bytes are now buffered).  In every case nothing is handed out, the invariant still holds, and every
+byte those calls returned – including the bytes that came together with the error – has been appended, in order, to
+the readable buffer. -/
+theorem C16_error_surfaced [Inhabited α] {r : ZCReader α} (hr : RGood r) (b : Nat) (n : Int) :
+    let out := r.waitRead b (fuelOf r) n
+    RGood out.1 ∧ out.1.delivered = r.delivered ∧ out.1.src.stream = r.src.stream ∧
+    (((r.q.len : Int) ≥ n ∧ out = (r, none)) ∨
+     ((r.q.len : Int) < n ∧ ∃ pre last, (pre ++ [last]) <+: r.src.script ++ [(0, .eof)] ∧
+        out.1.src.script = r.src.script.drop (pre.length + 1) ∧
+        (∀ p ∈ pre, errOf p = none) ∧ out.2 = errOf last ∧ (errOf last = none → (out.1.q.len : Int) ≥ n) ∧
+        out.1.src.pos = r.src.pos + ((pre ++ [last]).map (gotOf b)).sum ∧
+        out.1.q.flushedBytes = r.q.flushedBytes ++ seg r.src.stream r.src.pos ((pre ++ [last]).map (gotOf b)).sum)) := by
+  intro out
+  obtain ⟨g, hd, hs, hcase⟩ := waitRead_spec b n (fuelOf r) r hr (Nat.le_refl _)
+  refine ⟨g, hd, hs, ?_⟩
+  rcases hcase with h | ⟨hlt, pre, last, h1, h2, h3, h4, h5, h6⟩
+  · exact Or.inl h
+  · refine Or.inr ⟨hlt, pre, last, h1, h2, h3, h4, h5, h6, ?_⟩
+    have e1 := g.stream
+    have e2 := hr.stream
+    rw [Src.pulled] at e1 e2
+    rw [hs, h6, range_map_add, ← e2, hd, List.append_assoc] at e1
+    exact List.append_cancel_left e1
+
+/-- the five calls that wait return the error `waitRead` reports -/
+theorem C16_error_surfaced_call [Inhabited α] (r : ZCReader α) (b : Nat) (n : Int) (e : AErr)
+    (h : (r.waitRead b (fuelOf r) n).2 = some e) :
+    r.step b (.next n) = ((r.waitRead b (fuelOf r) n).1, .fail e) ∧
+    r.step b (.peek n) = ((r.waitRead b (fuelOf r) n).1, .fail e) ∧
+    r.step b (.skip n) = ((r.waitRead b (fuelOf r) n).1, .fail e) ∧
+    r.step b (.readBinary n) = ((r.waitRead b (fuelOf r) n).1, .fail e) ∧
+    (n = 1 → r.step b .readByte = ((r.waitRead b (fuelOf r) n).1, .fail e)) := by
+  cases hw : r.waitRead b (fuelOf r) n with
+  | mk r1 res =>
+    rw [hw] at h
+    simp only at h
+    subst h
+    refine ⟨?_, ?_, ?_, ?_, ?_⟩
+    · simp only [ZCReader.step, hw]
+    · simp only [ZCReader.step, hw]
+    · simp only [ZCReader.step, hw]
+    · simp only [ZCReader.step, hw]
+    · intro h1; subst h1; simp only [ZCReader.step, hw]
+
+/-- non-vacuity: `Next(6)` over reads of 3, 0, then 2 bytes *together with* io.EOF: the call fails with ErrEOF,
+nothing was delivered, all 5 bytes (including the 2 that came with the EOF) are readable; `Next(2)` on a full-enough
+buffer does not touch the source. -/
+example :
+    let r₀ := ({ src := { stream := fun i => 10 + i, script := [(3, .none), (0, .none), (2, .eof)] } } : ZCReader Nat)
+    (r₀.waitRead 4 (fuelOf r₀) 6).2 = some .eof ∧ (r₀.waitRead 4 (fuelOf r₀) 6).1.q.flushedBytes = [10, 11, 12, 13, 14] ∧
+    (r₀.waitRead 4 (fuelOf r₀) 6).1.delivered = [] ∧
+    ((r₀.waitRead 4 (fuelOf r₀) 6).1.waitRead 4 1 2).1.src.pos = 5 ∧
+    (({ src := { stream := fun i => 10 + i, script := [(-1, .none)] } } : ZCReader Nat).waitRead 4 2 1).2 = some .negative := by
+  decide
+
+/-! ## 4. `fuelOf` rounds suffice -/
+
+/-- `waitRead` with `script.length + 1` rounds of fuel never stops for lack of fuel: it returns an error or `n` bytes
+are buffered – and more fuel changes nothing (so the model's bounded loop is Go's unbounded `for buf.Len() < n`). No
+hypothesis on the state. -/
+theorem C16_fuel_sufficient [Inhabited α] (r : ZCReader α) (b : Nat) (n : Int) :
+    ((r.waitRead b (fuelOf r) n).2 ≠ none ∨ ((r.waitRead b (fuelOf r) n).1.q.len : Int) ≥ n) ∧
+    ∀ fuel, fuelOf r ≤ fuel → r.waitRead b fuel n = r.waitRead b (fuelOf r) n :=
+  ⟨waitRead_enough b n (fuelOf r) r (Nat.le_refl _),
+   fun fuel h => waitRead_fuel_indep b n fuel (fuelOf r) r h (Nat.le_refl _)⟩
+
+example :
+    let r₀ := ({ src := { stream := fun i => i, script := [(1, .none), (0, .none), (0, .none), (1, .none)] } } : ZCReader Nat)
+    (r₀.waitRead 4 (fuelOf r₀) 2).2 = none ∧ (r₀.waitRead 4 (fuelOf r₀) 2).1.q.len = 2 ∧
+    (r₀.waitRead 4 3 2).1.q.len = 1 := by   -- 3 rounds are not enough here, 5 = fuelOf are
+  decide
+
+/-! ## 5. writer -/
+
+omit [DecidableEq α] in
+theorem C16_writer_init (script : List (Nat × IOErr)) : WGood ({ sink := { script := script } } : ZCWriter α) :=
+  WGood.init script
+
+/-- one in-contract Writer call keeps the invariant and acts on (flushed stream, pending bytes) as the interface says.
+`WContract` holds the legitimate caller obligations of the C01 `Contract`: `n ≤ MallocLen()` for `MallocAck n`,
+`d.length = n.toNat` for the data written into `Malloc n`'s slice, `len(p) ≤ cap(p)` for `WriteBinary p`. -/
+theorem C16_writer_step {w : ZCWriter α} (hw : WGood w) (op : WOp α) (hc : WContract w op) :
+    WGood (w.step op).1 ∧
+    ((w.step op).1.submitted, (w.step op).1.q.pendingBytes) = wspec (w.submitted, w.q.pendingBytes) op :=
+  wstep_ok hw op hc
+
+/-- For every sink (any pattern of short writes and errors) and every in-contract sequence of Writer calls
+(`WInContract`: the caller-side clauses of the C01 `Contract`, see `C16_writer_step`), at every point: what the sink has received followed by what is flushed-and-still-buffered is exactly the stream the caller has
+flushed so far (`(ops.foldl wspec _).1`, a function of the calls alone) – so across successive Flushes the sink gets
+that stream once and in order; the pending entries are exactly what was written since the last Flush; flushed entries
+precede pending ones; and every LinkBuffer call was inside the C01 contract. -/
+theorem C16_writer_stream (script : List (Nat × IOErr)) (ops : List (WOp α))
+    (hc : WInContract ({ sink := { script := script } } : ZCWriter α) ops) :
+    let w := ({ sink := { script := script } } : ZCWriter α).run ops
+    let spec := ops.foldl wspec (([] : List α), ([] : List α))
+    w.sink.got ++ w.q.flushedBytes = spec.1 ∧ w.q.pendingBytes = spec.2 ∧ w.submitted = spec.1 ∧
+    w.q.items = w.q.flushedBytes.map (·, true) ++ w.q.pendingBytes.map (·, false) ∧ w.inC = true := by
+  intro w spec
+  obtain ⟨g, hsp⟩ := wrun_ok ops _ (WGood.init script) hc
+  have h1 : w.submitted = spec.1 := congrArg Prod.fst hsp
+  have h2 : w.q.pendingBytes = spec.2 := congrArg Prod.snd hsp
+  exact ⟨by rw [← h1]; exact g.stream, h2, h1, g.shape, g.inC⟩
+
+/-- One `Flush`: the sink is offered everything flushed and not yet accepted (old remainder ++ newly flushed); the `n`
+bytes it accepts (any `n ≤` offered, with or without an error) move from the buffer to the sink, the rest stays
+readable for the next Flush; if it accepts everything the buffer is empty afterwards; the sink's error is returned. -/
+theorem C16_writer_flush {w : ZCWriter α} (hw : WGood w) :
+    let offered := w.q.flushedBytes ++ w.q.pendingBytes
+    let n := (w.sink.write offered).1.1
+    let w' := (w.step .flush).1
+    WGood w' ∧ n ≤ offered.length ∧ w'.sink.got = w.sink.got ++ offered.take n ∧ w'.q.flushedBytes = offered.drop n ∧
+      w'.q.pendingBytes = [] ∧ w'.submitted = w.submitted ++ w.q.pendingBytes ∧ (n = offered.length → w'.q.len = 0) ∧
+      (w.step .flush).2 = (match (w.sink.write offered).1.2 with | .none => .ok .unit | _ => .fail .src) :=
+  wflush_facts hw
+
+/-- non-vacuity: sink accepts 2 bytes, then 1 byte with an error, then everything. Malloc 4 / MallocAck 3 / Flush /
+WriteByte / Flush / Flush: the sink ends with the flushed stream, nothing buffered. -/
+example :
+    let w₀ := ({ sink := { script := [(2, .none), (1, .other)] } } : ZCWriter Nat)
+    let ops : List (WOp Nat) := [.malloc 4 [1, 2, 3, 4], .mallocAck 3, .flush, .writeByte 9, .flush, .flush]
+    WInContract w₀ ops ∧ (w₀.run (ops.take 3)).sink.got = [1, 2] ∧ (w₀.run (ops.take 3)).q.flushedBytes = [3] ∧
+    (w₀.run (ops.take 5)).sink.got = [1, 2, 3] ∧ ((w₀.run (ops.take 4)).step .flush).2 = .fail .src ∧
+    (w₀.run ops).sink.got = [1, 2, 3, 9] ∧ (w₀.run ops).q.len = 0 ∧ ops.foldl wspec ([], []) = ([1, 2, 3, 9], []) := by
+  decide
+
+/-! ## 6. ioReader / ioWriter -/
+
+/-- `ioWriter.Write(p)` appends `p` to the readable stream and reports `len(p)`; `ioReader.Read` into a buffer of
+length `l` returns the first `min l Len` readable bytes (never more than `l`), in order, and removes exactly those;
+it reports io.EOF iff `l > 0` and nothing is readable. So a Write followed by a Read returns the written bytes. -/
+theorem C16_io_roundtrip {q : Q α} (hq : QGood q) (p : List α) (l : Nat) :
+    (QGood (ioWrite q p).1 ∧ (ioWrite q p).1.flushedBytes = q.flushedBytes ++ p ∧ (ioWrite q p).2.1 = p.length) ∧
+    (QGood (ioRead q l).1 ∧ (ioRead q l).2.1 = q.flushedBytes.take l ∧
+       (ioRead q l).1.flushedBytes = q.flushedBytes.drop l ∧ (ioRead q l).2.1.length ≤ l ∧
+       ((ioRead q l).2.2.1 = true ↔ (0 < l ∧ q.len = 0))) ∧
+    (ioRead (ioWrite q p).1 l).2.1 = (q.flushedBytes ++ p).take l ∧
+    (ioRead (ioWrite ({} : Q α) p).1 p.length).2.1 = p := by
+  obtain ⟨g, hfb, hn, _⟩ := ioWrite_spec hq p
+  obtain ⟨g', hbs, hfb', heof, _⟩ := ioRead_spec hq l
+  refine ⟨⟨g, hfb, hn⟩, ⟨g', hbs, hfb', ?_, heof⟩, ?_, ?_⟩
+  · rw [hbs, List.length_take]; exact Nat.min_le_left _ _
+  · rw [(ioRead_spec g l).2.1, hfb]
+  · obtain ⟨g0, hfb0, _, _⟩ := ioWrite_spec (QGood.empty (α := α)) p
+    rw [(ioRead_spec g0 p.length).2.1, hfb0]
+    simp [Q.flushedBytes]
+
+/-- any interleaving of Writes and Reads on one buffer: bytes read so far ++ bytes still readable = bytes written -/
+theorem C16_io_stream (ops : List (IOOp α)) :
+    let s := ({} : IOState α).run ops
+    s.read ++ s.q.flushedBytes = s.written ∧ s.inC = true := by
+  intro s
+  have h0 : IOGood ({} : IOState α) := ⟨QGood.empty, by simp [Q.flushedBytes], rfl⟩
+  exact (io_run_ok ops _ h0).2
+
+example :
+    let q := (ioWrite (ioWrite ({} : Q Nat) [1, 2, 3]).1 [4, 5]).1
+    (ioRead q 2).2.1 = [1, 2] ∧ (ioRead (ioRead q 2).1 10).2 = ([3, 4, 5], false, true) ∧
+    (ioRead (ioRead (ioRead q 2).1 10).1 1).2 = ([], true, true) ∧ (ioRead ({} : Q Nat) 0).2 = ([], false, true) := by
+  decide
+
+/-! ## 7. every LinkBuffer call the adapters make is inside the C01 contract -/
+
+/-- `callQ` is the only place the adapters apply `specStep`, and its ghost flag is the conjunction of `Contract`
+over all calls so far. -/
+theorem C16_callQ_def (q : Q α) (c : Bool) (op : Op α) :
+    callQ q c op = ((specStep q op).1, (specStep q op).2, c && Contract q op) := rfl
+
+/-- For every source / sink script and every call sequence (writer: inside its own contract), every `specStep` the
+adapters performed had `Contract = true` – e.g. `MallocAck num` in `fill` has `num ≤ MallocLen` because a source
+never returns more than `len(p)`, `Malloc(block4k)` is filled with exactly `block4k` bytes (`pad_length`), no
+adapter ever Appends (`appSinceFlush = false` is part of the invariants), and the reads see a flushed prefix. `Len()` / `MallocLen()` observations need only
+a live buffer. Hence the C01 refinement theorem applies to the LinkBuffer underneath. -/
+theorem C16_contract [Inhabited α] (block4k : Nat) (stream : Nat → α) (rscript : List (Int × IOErr))
+    (rops : List (ROp α)) (wscript : List (Nat × IOErr)) (wops : List (WOp α))
+    (hc : WInContract ({ sink := { script := wscript } } : ZCWriter α) wops) (iops : List (IOOp α)) :
+    let r := ({ src := { stream := stream, script := rscript } } : ZCReader α).run block4k rops
+    let w := ({ sink := { script := wscript } } : ZCWriter α).run wops
+    (r.inC = true ∧ Contract r.q .len = true) ∧ (w.inC = true ∧ Contract w.q .mallocLen = true) ∧
+    (({} : IOState α).run iops).inC = true := by
+  intro r w
+  obtain ⟨g, _, _⟩ := run_ok block4k rops _ (RGood.init stream rscript)
+  obtain ⟨gw, _⟩ := wrun_ok wops _ (WGood.init wscript) hc
+  exact ⟨⟨g.inC, (contract_read g.allF g.flags).2.2.2.2.2.2.2⟩, ⟨gw.inC, (contract_write gw.flags).2.2.2.2.2⟩,
+    (C16_io_stream iops).2⟩
+
+/-- the flag is not vacuous: an out-of-contract `MallocAck` (more than was malloc'ed) clears it -/
+example :
+    (({} : ZCWriter Nat).run [.malloc 2 [1, 2], .mallocAck 3]).inC = false ∧
+    (({} : ZCWriter Nat).run [.malloc 2 [1, 2], .mallocAck 2, .flush]).inC = true := by
+  decide
+
 end Netpoll.Props.C16
